@@ -9,4 +9,12 @@ EXTENDS StreamMgmt, Json, CSV, IOUtils
 
 EmitBehaviour ==
     CSVWrite("%1$s", <<ToJson([steps |-> hist'])>>, IOEnv.QXV_GEN)
+
+\* Labelled state graph of the bounded model (StreamMgmtGenEdges*.cfg, with VIEW TourView): one
+\* line per transition (source state, action record, target state).  lib/props/C09.py
+\* computes from it a set of paths from the initial state that covers every transition
+\* (Destroy, which is terminal and enabled everywhere, only where a path ends).
+EmitEdge ==
+    CSVWrite("%1$s", <<ToJson([s |-> ToString(TourView), a |-> hist'[Len(hist')], t |-> ToString(TourView'),
+                               d |-> Len(hist')])>>, IOEnv.QXV_GEN)
 =============================================================================
